@@ -1,7 +1,7 @@
 SPECIFICATION Spec
 CONSTANTS
   MaxLen = 6
-  MaxPool = 7
+  MaxPool = 8
   Emit = TRUE
 INVARIANT ContentKept
 INVARIANT EmitState
